@@ -32,7 +32,6 @@ PENDING = {
     'C01': 'not yet claimed: value-level encoder and decoder are under contract (see C03/C02); the message-level round-trip lemma is not built yet',
     'C04': 'not yet claimed: the functional specification of the parser state machine is not built yet (panic-freedom and consumption are, see C02/C06)',
     'C09': 'not yet claimed: IppAttributes::to_bytes contract not built yet',
-    'C10': 'not yet claimed: operation constructors not under contract yet',
 }
 
 LEVEL_TEXT = {
@@ -51,6 +50,10 @@ LEVEL_TEXT = {
     'C07': 'Same obligations read as: Ok implies the whole scanned section was available before end-of-data/fault; lemma '
            'lemma_scan_prefix_none (proved) shows no proper prefix of an accepted section is accepted; Kani proves the I/O error '
            'kind survives the conversion into the parse error.',
+    'C10': 'Deductive proof that nine of the ten into_ipp_request bodies and both raw constructors produce a request whose header and '
+           'whole abstract attribute view (group sequence, name -> value maps) EQUAL the RFC 8011 request model of their arguments — '
+           'operation code literal from the RFC table, version 1.1, request-id 1, charset/language/printer-uri, job-id integer, '
+           'last-document boolean, requesting-user-name / job-name as nameWithoutLanguage, job attributes in order (last wins), payload identity.',
     'C16': 'Complete finite-domain proofs with Kani on the real derive expansions: every u16 status/operation code, every tag byte, '
            'every i32 for the five attribute enums, against registry tables embedded in the harness; Verus contracts for '
            'status_code() fallback and is_success().',
